@@ -121,6 +121,8 @@ struct Numeric {
     ptys: Vec<(&'static str, RunP)>,
     /// only the aggregations that stay exact with infinite observations (positions, counts, extrema)
     order_only: bool,
+    /// skip the aggregations whose result type is the element type (a sum that leaves the type is inherent there)
+    no_elem_sums: bool,
 }
 fn order_op(op: AggOp) -> bool {
     use AggOp::*;
@@ -170,9 +172,13 @@ impl Numeric {
             if self.order_only && !order_op(op) {
                 continue;
             }
+            if self.no_elem_sums && matches!(op, AggOp::VSum) {
+                continue;
+            }
             let model = agg_model(op, &x, &[]);
             for (tname, run) in &self.tys {
-                for src in [Source::Owned, Source::TIter, Source::OptView] {
+                // sources of exact and of unknown announced length (size hints (n, n), (0, n), (0, None))
+                for src in [Source::Owned, Source::TIter, Source::OptView, Source::Filtered, Source::FlatMapped] {
                     let got = match run(op, &x, &[], src) {
                         None => continue,
                         Some(g) => g,
@@ -217,6 +223,9 @@ impl Numeric {
         if x.iter().all(|v| v.is_some()) {
             for op in plain_ops(&self.alpha) {
                 if self.order_only && !order_op(op) {
+                    continue;
+                }
+                if self.no_elem_sums && matches!(op, AggOp::Sum | AggOp::NSum) {
                     continue;
                 }
                 let model = agg_model(op, &x, &[]);
@@ -277,7 +286,7 @@ impl Pairs {
             let b = if matches!(op, AggOp::NVSumFilter | AggOp::NSumFilter | AggOp::VMeanFilter(_)) { &mask } else { &b };
             let model = agg_model(op, &a, b);
             for (tname, run) in [("f64", run_agg_valid::<f64> as RunV), ("Option<f64>", run_agg_valid::<Option<f64>> as RunV), ("Option<i32>", run_agg_valid::<Option<i32>> as RunV)] {
-                for src in [Source::Owned, Source::TIter, Source::OptView] {
+                for src in [Source::Owned, Source::TIter, Source::OptView, Source::Filtered, Source::FlatMapped] {
                     let got = match run(op, &a, b, src) {
                         None => continue,
                         Some(g) => g,
@@ -426,6 +435,7 @@ fn main() {
         ],
         ptys: vec![("f64", run_agg_plain::<f64> as RunP), ("i32", run_agg_plain::<i32>), ("i64", run_agg_plain::<i64>)],
         order_only: false,
+        no_elem_sums: false,
     };
     let nan = Numeric {
         name: "numeric-nan-kinds".into(),
@@ -434,6 +444,7 @@ fn main() {
         tys: vec![("f64", run_agg_valid::<f64> as RunV), ("f32", run_agg_valid::<f32>)],
         ptys: vec![],
         order_only: false,
+        no_elem_sums: false,
     };
     // infinities are ordinary observations for counts, positions and extrema: a series may consist of nothing else
     let inf = Numeric {
@@ -443,6 +454,7 @@ fn main() {
         tys: vec![("f64", run_agg_valid::<f64> as RunV), ("Option<f64>", run_agg_valid::<Option<f64>>), ("f32", run_agg_valid::<f32>)],
         ptys: vec![("f64", run_agg_plain::<f64> as RunP), ("f32", run_agg_plain::<f32>)],
         order_only: true,
+        no_elem_sums: false,
     };
     // narrow element types with values whose squares / sums leave the element type's exact range
     // (50001^2 > i32::MAX and is not an f32): everything must be accumulated in f64
@@ -453,6 +465,17 @@ fn main() {
         tys: vec![("i32", run_agg_valid::<i32> as RunV), ("Option<i32>", run_agg_valid::<Option<i32>>), ("f32", run_agg_valid::<f32>), ("i64", run_agg_valid::<i64>)],
         ptys: vec![("i32", run_agg_plain::<i32> as RunP), ("i64", run_agg_plain::<i64>)],
         order_only: false,
+        no_elem_sums: false,
+    };
+    // each value fits an i32, their sum does not: a mean / variance is representable all the same
+    let wide_sum = Numeric {
+        name: "numeric-wide-sum".into(),
+        alpha: vec![None, Some(1.0), Some(1_400_000_000.0), Some(-1_400_000_000.0), Some(2_000_000_000.0)],
+        max_len: run.pick(4, 5),
+        tys: vec![("i32", run_agg_valid::<i32> as RunV), ("Option<i32>", run_agg_valid::<Option<i32>>)],
+        ptys: vec![("i32", run_agg_plain::<i32> as RunP)],
+        order_only: false,
+        no_elem_sums: true,
     };
     let pairs = Pairs { alpha: vec![None, Some(0.0), Some(1.0), Some(3.0)], max_len: run.pick(4, 5) };
     let bools = Bools { max_len: run.pick(7, 11) };
@@ -469,6 +492,7 @@ fn main() {
             "bools" => bools.check_word(&word, &mut ctx),
             "numeric-wide" => wide.check_word(&word, &mut ctx),
             "numeric-inf" => inf.check_word(&word, &mut ctx),
+            "numeric-wide-sum" => wide_sum.check_word(&word, &mut ctx),
             "numeric-nan-kinds" => nan.check_word(&word, &mut ctx),
             "numeric-long" => ctx.merge(aggs_long(!run.quick(), 1)),
             _ => num.check_word(&word, &mut ctx),
@@ -478,6 +502,7 @@ fn main() {
     let mut total = explore_tree(&num, run.threads);
     total.merge(explore_tree(&wide, run.threads));
     total.merge(explore_tree(&inf, run.threads));
+    total.merge(explore_tree(&wide_sum, run.threads));
     total.merge(explore_tree(&nan, run.threads));
     total.merge(aggs_long(!run.quick(), run.threads));
     total.merge(explore_tree(&pairs, run.threads));
